@@ -96,3 +96,10 @@ package htlcswitch
 //@           (!old(pkt.hasSource) && retn(CloseCircuit, 1) == nil && result0 == retn(CloseCircuit, 0))
 //@   ensures !old(pkt.hasSource) && retn(CloseCircuit, 1) == ErrCircuitClosing ==> result1 == ErrCircuitClosing && result0 == nil &&
 //@           len(s.pendingSettleFails) == old(len(s.pendingSettleFails))
+//@
+//@ lemma routeHopPaysPolicy(a int, base int, rate int, ib int, ir int): 0 <= a && 0 <= base && 0 <= rate ==>
+//@        feeOK(a + max(0, models.outFee(base, rate, a) + models.inFee(ib, ir, a + models.outFee(base, rate, a))), a, base, rate, ib, ir)
+//@   props C19
+//@
+//@ lemma routeHopExpiryGap(eo int, tld int, maxc int): 0 <= eo && 0 <= tld && tld <= maxc ==> deltaOK(eo + tld, eo, tld, maxc)
+//@   props C19
